@@ -88,49 +88,49 @@ def erfPoly (alt : Bool) (x : K) (n : Nat) : K :=
 /-- `erf`: leaf `a = 2/√π · exp(-x²)`, order 0 leaf `f0` -/
 def dErf (f0 a x : K) (n : Nat) : K := if n = 0 then f0 else a * erfPoly true x n
 def dErfi (f0 a x : K) (n : Nat) : K := if n = 0 then f0 else a * erfPoly false x n
-end
 
-/-! ### closed forms that go through complex numbers (evaluated in Gaussian rationals) -/
-namespace QI
-def I : QI := ⟨0, 1⟩
-def ofRat (r : Rat) : QI := ⟨r, 0⟩
-def npow (z : QI) : Nat → QI
+/-! ### closed forms that go through complex numbers (evaluated in `Cx K`; Gaussian rationals in the driver) -/
+namespace Cx
+def I : Cx K := ⟨0, 1⟩
+def ofK (r : K) : Cx K := ⟨r, 0⟩
+def npow (z : Cx K) : Nat → Cx K
   | 0 => 1
   | n+1 => npow z n * z
 /-- Legendre polynomial `P_k(z)` by the three-term recurrence -/
-def legendre (z : QI) : Nat → QI × QI     -- (P_k, P_{k-1})
+def legendre (z : Cx K) : Nat → Cx K × Cx K     -- (P_k, P_{k-1})
   | 0 => (1, 0)
   | k+1 =>
     let (pk, pkm) := legendre z k
-    ((ofRat (2*k+1) * z * pk - ofRat k * pkm) / ofRat (k+1), pk)
-end QI
+    ((ofK (nat (2*k+1)) * z * pk - ofK (nat k) * pkm) / ofK (nat (k+1)), pk)
+end Cx
 
 /-- `arctan`: `Re(0.5i (-1)^n (n-1)! ((x-i)^{-n} - (x+i)^{-n}))` -/
-def dArctanQ (l x : Rat) (n : Nat) : Rat :=
+def dArctan (l x : K) (n : Nat) : K :=
   if n = 0 then l else
-    let a : QI := ⟨0, (1/2 : Rat)⟩ * QI.ofRat ((if n % 2 = 0 then 1 else -1) * (fact (n-1) : Rat))
-    let b : QI := (1 : QI) / QI.npow ⟨x, -1⟩ n - (1 : QI) / QI.npow ⟨x, 1⟩ n
+    let a : Cx K := ⟨0, (1 / nat 2 : K)⟩ * Cx.ofK (negOnePow n * nat (fact (n-1)))
+    let b : Cx K := (1 : Cx K) / Cx.npow ⟨x, -1⟩ n - (1 : Cx K) / Cx.npow ⟨x, 1⟩ n
     (a * b).re
 
 /-- `arcsin`: `Re(i (-i)^n (n-1)! r^n P_{n-1}(i x r))`, leaf `r = 1/sqrt(1-x²)` -/
-def dArcsinQ (l x r : Rat) (n : Nat) : Rat :=
+def dArcsin (l x r : K) (n : Nat) : K :=
   if n = 0 then l else
-    let a : QI := QI.I * QI.npow (-QI.I) n * QI.ofRat (fact (n-1) : Rat) * QI.npow (QI.ofRat r) n
-    let b : QI := (QI.legendre (QI.I * QI.ofRat (x * r)) (n-1)).1
+    let a : Cx K := Cx.I * Cx.npow (-Cx.I) n * Cx.ofK (nat (fact (n-1))) * Cx.npow (Cx.ofK r) n
+    let b : Cx K := (Cx.legendre (Cx.I * Cx.ofK (x * r)) (n-1)).1
     (a * b).re
 
 /-- `arcsinh`: `(-1)^{n-1} (n-1)! r^n P_{n-1}(x r)`, leaf `r = 1/sqrt(1+x²)` -/
-def dArcsinhQ (l x r : Rat) (n : Nat) : Rat :=
+def dArcsinh (l x r : K) (n : Nat) : K :=
   if n = 0 then l else
-    ((if (n-1) % 2 = 0 then 1 else -1) * (fact (n-1) : Rat)) * r ^ n * ((QI.legendre (QI.ofRat (x * r)) (n-1)).1).re
+    (negOnePow (n-1) * nat (fact (n-1))) * powN r n * ((Cx.legendre (Cx.ofK (x * r)) (n-1)).1).re
 
 /-- `arccosh` (`x > 1`): `x1 = 1/sqrt(1-x²) = -i r` with the leaf `r = 1/sqrt(x²-1)`;
 `Re(-(-i)^n (n-1)! x1^n P_{n-1}(i x x1))` -/
-def dArccoshQ (l x r : Rat) (n : Nat) : Rat :=
+def dArccosh (l x r : K) (n : Nat) : K :=
   if n = 0 then l else
-    let x1 : QI := -QI.I * QI.ofRat r
-    let a : QI := -(QI.npow (-QI.I) n) * QI.ofRat (fact (n-1) : Rat) * QI.npow x1 n
-    let b : QI := (QI.legendre (QI.I * QI.ofRat x * x1) (n-1)).1
+    let x1 : Cx K := -Cx.I * Cx.ofK r
+    let a : Cx K := -(Cx.npow (-Cx.I) n) * Cx.ofK (nat (fact (n-1))) * Cx.npow x1 n
+    let b : Cx K := (Cx.legendre (Cx.I * Cx.ofK x * x1) (n-1)).1
     (a * b).re
+end
 
 end AV
